@@ -186,4 +186,75 @@ def lrun : LCfg → List Nat → Option LCfg
     | .blocked => lrun cfg js
     | .idle => lrun cfg js
 
+/-! ## decidable form of the hypotheses `Lk.PoolOK` (Proofs/LocksGeneric.lean)
+
+`poolOKb` is run by the driver on the traces *observed* in the crate (feature `verif` logs every
+`lock`, `try_lock` and guard drop per thread and pass); `Proofs/LocksCheck.lean` proves
+`poolOKb ts = true → Lk.PoolOK ts`, so a positive answer puts the observed traces under the
+theorems: no interleaving of them panics on a `try_lock` or deadlocks. -/
+
+def tryLocksOf : List LEv → List LockId
+  | [] => []
+  | .tryAcq l :: t => l :: tryLocksOf t
+  | _ :: t => tryLocksOf t
+
+def blockLocksOf : List LEv → List LockId
+  | [] => []
+  | .acq l :: t => l :: blockLocksOf t
+  | _ :: t => blockLocksOf t
+
+def leafCSb : List LEv → Bool
+  | [] => true
+  | .acq l :: .rel l' :: t => l == l' && leafCSb t
+  | .acq _ :: _ => false
+  | _ :: t => leafCSb t
+
+def relOKb : List LEv → Bool
+  | [] => true
+  | .tryAcq l :: t => t.contains (.rel l) && relOKb t
+  | .acq l :: t => t.contains (.rel l) && relOKb t
+  | .rel _ :: t => relOKb t
+
+def nodupb : List LockId → Bool
+  | [] => true
+  | l :: ls => !ls.contains l && nodupb ls
+
+def poolOKb (ts : List (List LEv)) : Bool :=
+  let tr := ts.flatMap tryLocksOf
+  let bl := ts.flatMap blockLocksOf
+  nodupb tr && ts.all leafCSb && tr.all (fun l => !bl.contains l) && ts.all relOKb
+
+/-- which hypothesis fails first (for the report) -/
+def poolOKwhy (ts : List (List LEv)) : String :=
+  let tr := ts.flatMap tryLocksOf
+  let bl := ts.flatMap blockLocksOf
+  if !nodupb tr then "a mutex is try_locked twice in one pass"
+  else if !ts.all leafCSb then "a blocking lock() is not released by the thread's next mutex operation"
+  else if !tr.all (fun l => !bl.contains l) then "a mutex is try_locked by one worker and lock()ed by another in the same pass"
+  else if !ts.all relOKb then "an acquisition is never released"
+  else "ok"
+
+section
+variable {α : Type} [Zero α] [One α] [Add α] [Sub α] [Mul α] [Div α] [Neg α]
+  [LT α] [DecidableLT α] [BEq α] [NatCast α] [FloatLike α] [Transc α]
+
+/-- the pass context `externalPass` builds -/
+def externalCtx (g : Game α) (first : Bool) (draw : DrawFn α) (it : Nat) (s : SolveSt α) : ECtx α :=
+  ⟨g.chance, first, s.strat, draw, 2 * (it - 1) + (if first then 0 else 1), if first then it - 1 else it⟩
+
+/-- the mutex events of every pass of `n` iterations of external sampling from iteration `it`
+(all nodes of the sampled tree: what the pool's tasks and the closing recursion do together) -/
+def externalLockPasses (g : Game α) (p : RegretParams α) (draw : DrawFn α) :
+    Nat → Nat → SolveSt α → List (DrawRec α) → List (List LEv)
+  | 0, _, _, _ => []
+  | n + 1, it, s, log =>
+    let t1 := (etrace (externalCtx g true draw it s) g.root { log := log }).1
+    match externalPass g true p draw it s log with
+    | (s, _, log) =>
+      let t2 := (etrace (externalCtx g false draw it s) g.root { log := log }).1
+      match externalPass g false p draw it s log with
+      | (s, _, log) => t1 :: t2 :: externalLockPasses g p draw n (it + 1) s log
+
+end
+
 end Cfr
